@@ -117,9 +117,9 @@ HARNESSES = [
     Harness("H10b", h10b_naming, dict(a=BVDom(16, lo=0, hi=MAX_COL), b=BVDom(16, lo=0, hi=MAX_COL)),
             bounds="two symbolic columns in [0, 18 277]"),
     Harness("H10c", h10c_range,
-            lambda tier: dict(r1=BVDom(21, lo=0, hi=999 if tier == "quick" else MAX_ROW), c1=BVDom(16, lo=0, hi=MAX_COL if tier != "quick" else 701),
-                              r2=BVDom(21, lo=0, hi=999 if tier == "quick" else MAX_ROW), c2=BVDom(16, lo=0, hi=MAX_COL if tier != "quick" else 701)),
-            bounds="corners: rows < 1000 / cols <= 701 ('ZZ') quick; full row/col range thorough"),
+            lambda tier: dict(r1=BVDom(21, lo=0, hi=999 if tier == "quick" else 9999), c1=BVDom(16, lo=0, hi=MAX_COL if tier != "quick" else 701),
+                              r2=BVDom(21, lo=0, hi=999 if tier == "quick" else 9999), c2=BVDom(16, lo=0, hi=MAX_COL if tier != "quick" else 701)),
+            bounds="corners: rows < 1000 / cols <= 701 ('ZZ') quick; rows < 10000 / all columns to 'ZZZ' thorough"),
     Harness("H10d", h10d_negative, dict(row=IntDom(), col=IntDom(), which=Cases([0, 1, 2, 3])),
             bounds="row, col: every Python int with at least one negative (unbounded Int)"),
     Harness("H10e", h10e_second_decoder,
